@@ -486,13 +486,21 @@ func c12Judge(c *core.Ctx, k c12case, res *core.ShardResult) (vs []core.Violatio
 		}
 	}
 	sort.Strings(must)
+	if _, err := os.Lstat(shome); linkDeclared && err != nil {
+		// an output designated the very link through which the project is reached and spok removed it:
+		// whatever it was to remove through that link afterwards could no longer be found (the order of
+		// removals is not fixed). Nothing is demanded of the other outputs in that corner.
+		res.Count("access_link_removed_by_clean", 1)
+		must = nil
+	}
 	for _, d := range must {
 		if _, err := os.Lstat(d); err == nil {
 			bad("removes-every-output", "%s is designated by a declared output but still exists after --clean (exit 0)", d)
 			return
 		}
 	}
-	if _, err := os.Lstat(filepath.Join(proj, ".spok")); err == nil {
+	_, linkErr := os.Lstat(shome)
+	if _, err := os.Lstat(filepath.Join(proj, ".spok")); err == nil && !(linkDeclared && linkErr != nil) {
 		bad("removes-the-cache", "the cache directory still exists after --clean (exit 0)")
 		return
 	}
